@@ -446,6 +446,8 @@ var ruleTable = []ruleRow{
 	{field.ErrorTypeInvalid, "spec.metricsCollectorSpec.collector.kind", "invalid metrics collector kind", 56},
 	{field.ErrorTypeInvalid, "spec.metricsCollectorSpec.source.filter.metricsFormat", "invalid filter", 57},
 	{field.ErrorTypeInvalid, "spec.metricsCollectorSpec.source.filter.metricsFormat", "two top subexpressions are required", 58},
+	{field.ErrorTypeDuplicate, "spec.parameters[].name", "", 59},
+	{field.ErrorTypeInvalid, "spec.parameters[].name", "parameter ", 60},
 }
 
 // ruleOf numbers a field.Error; rule 999 = an error site the model does not know.
